@@ -18,6 +18,11 @@ Ltac unops :=
   change (omin ROps) with Rmin in *; change (omax ROps) with Rmax in *;
   change (o0 ROps) with 0 in *; change (o1 ROps) with 1 in *; change (T ROps) with R in *.
 
+Lemma sq_nn (x : R) : 0 <= x * x.
+Proof. pose proof (Rle_0_sqr x) as H; unfold Rsqr in H; exact H. Qed.
+Lemma sq_pos (x : R) : x <> 0 -> 0 < x * x.
+Proof. intros H. pose proof (Rlt_0_sqr x H) as H1; unfold Rsqr in H1; exact H1. Qed.
+
 (* ------------------------------------------------------------ (1) half-open crossing rule *)
 Definition crossR (ax ay bx by_ px py : R) : R := (bx - ax) * (py - ay) - (by_ - ay) * (px - ax).
 
@@ -54,16 +59,16 @@ Proof.
   rewrite cross_spec_cs.
   destruct l as [[ax ay] [bx by_]], p as [px py].
   unfold winding, new_line_info, v2normalize, v2len, v2len2, v2dot, v2muls, v2sub; cbn. unops.
-  set (vv := (bx - ax) * (bx - ax) + (by_ - ay) * (by_ - ay)).
-  set (k := crossR ax ay bx by_ px py).
-  set (dn := (px - ax) * ((by_ - ay) * (1 / sqrt vv)) + (py - ay) * - ((bx - ax) * (1 / sqrt vv))).
-  assert (Hvv : 0 <= vv) by (unfold vv; nra).
+  remember ((bx - ax) * (bx - ax) + (by_ - ay) * (by_ - ay)) as vv eqn:Evv.
+  remember (crossR ax ay bx by_ px py) as k eqn:Ek.
+  remember ((px - ax) * ((by_ - ay) * (1 / sqrt vv)) + (py - ay) * - ((bx - ax) * (1 / sqrt vv))) as dn eqn:Edn.
+  assert (Hvv : 0 <= vv) by (pose proof (sq_nn (bx - ax)); pose proof (sq_nn (by_ - ay)); lra).
   destruct (Req_dec by_ ay) as [E|NE].
   - (* horizontal (or degenerate): no crossing on either side *)
     subst by_. rewrite cs_level. rcmp; cbn; try reflexivity; lra.
-  - assert (Hpos : 0 < vv) by (unfold vv; assert (0 < (by_ - ay) * (by_ - ay)) by nra; nra).
+  - assert (Hpos : 0 < vv) by (pose proof (sq_nn (bx - ax)); assert (0 < (by_ - ay) * (by_ - ay)) by (apply sq_pos; lra); lra).
     assert (HL : 0 < sqrt vv) by (apply sqrt_lt_R0; exact Hpos).
-    assert (Hdn : dn = - k * (1 / sqrt vv)) by (unfold dn, k, crossR; field; lra).
+    assert (Hdn : dn = - k * (1 / sqrt vv)) by (rewrite Edn, Ek; unfold crossR; field; lra).
     assert (Hi : 0 < 1 / sqrt vv) by (apply Rdiv_lt_0_compat; lra).
     unfold cs.
     assert (E1 : Rltb dn 0 = Rltb 0 k).
@@ -77,7 +82,7 @@ Definition sumZ (l : list Z) : Z := fold_right Z.add 0%Z l.
 
 Lemma fold_sum {A} (f : A -> Z) (l : list A) (w : Z) :
   fold_left (fun w x => (w + f x)%Z) l w = (w + sumZ (map f l))%Z.
-Proof. revert w; induction l as [|x l IH]; intros w; cbn; [lia|]. rewrite IH. lia. Qed.
+Proof. revert w; induction l as [|x l IH]; intros w; cbn [fold_left map]; [unfold sumZ; cbn; lia|]. rewrite IH. unfold sumZ; cbn [fold_right]. lia. Qed.
 
 (* summed over any list of edges (in particular a closed chain): the slow loop's winding number is
    the specification crossing number *)
@@ -120,3 +125,37 @@ Theorem closed_chain_level_balance (vs : list V) (y : R) :
 Proof.
   destruct vs as [|v0 vs]; [reflexivity|]. unfold closed_edges. rewrite closed_from_balance. lia.
 Qed.
+
+(* ------------------------------------------------------------ (3) splitting a segment: winding *)
+Definition between (A B C : V) (s : R) : Prop :=
+  0 < s < 1 /\ vx C = vx A + s * (vx B - vx A) /\ vy C = vy A + s * (vy B - vy A).
+
+Lemma cs_split ay cy by_ py k : (ay <= cy <= by_) \/ (by_ <= cy <= ay) ->
+  (cs ay cy py k + cs cy by_ py k = cs ay by_ py k)%Z.
+Proof.
+  intros H. unfold cs.
+  destruct (Rleb ay py) eqn:C1; [apply Rleb_true in C1 | apply Rleb_false in C1];
+  (destruct (Rleb cy py) eqn:C2; [apply Rleb_true in C2 | apply Rleb_false in C2]);
+  (destruct (Rleb by_ py) eqn:C3; [apply Rleb_true in C3 | apply Rleb_false in C3]);
+  (destruct (Rltb py cy) eqn:C4; [apply Rltb_true in C4 | apply Rltb_false in C4]);
+  (destruct (Rltb py by_) eqn:C5; [apply Rltb_true in C5 | apply Rltb_false in C5]);
+  try (exfalso; destruct H; lra);
+  destruct (Rltb 0 k) eqn:C6; destruct (Rltb k 0) eqn:C7; cbn; try reflexivity;
+  apply Rltb_true in C6; apply Rltb_true in C7; lra.
+Qed.
+
+(* the half-open rule at the cut: the two pieces together count exactly what the segment counts *)
+Theorem cross_spec_split (A B C p : V) (s : R) : between A B C s ->
+  (cross_spec (A, C) p + cross_spec (C, B) p = cross_spec (A, B) p)%Z.
+Proof.
+  intros ((Hs0 & Hs1) & Hx & Hy). rewrite !cross_spec_cs. cbn [fst snd].
+  destruct A as [ax ay], B as [bx by_], C as [cx cy], p as [px py]; cbn [vx vy] in *.
+  replace (crossR ax ay cx cy px py) with (s * crossR ax ay bx by_ px py) by (unfold crossR; subst cx cy; ring).
+  replace (crossR cx cy bx by_ px py) with ((1 - s) * crossR ax ay bx by_ px py) by (unfold crossR; subst cx cy; ring).
+  rewrite !cs_scale by lra. apply cs_split.
+  destruct (Rle_dec ay by_); [left | right]; subst cy; nra.
+Qed.
+
+Theorem winding_split (A B C p : V) (s : R) : between A B C s ->
+  (winding (new_line_info (A, C)) p + winding (new_line_info (C, B)) p = winding (new_line_info (A, B)) p)%Z.
+Proof. intros H. rewrite !winding_eq_spec. exact (cross_spec_split A B C p s H). Qed.
